@@ -198,7 +198,7 @@ Definition c09_step_ok (s : wstep) : bool :=
       (* the bundles still read back: file lists keep the layout the reader checks *)
       forallb (fun id => match mget (GetArchivePathToBundle r id) (sn_meta a) with
                          | Some (VBundle _ c) =>
-                             match unpack_lists 1000 (N.to_nat c) 0
+                             match unpack_lists E_default (N.to_nat c) 0
                                      (fun i => match mget (GetArchivePathToBundleFileList r id (N.of_nat i)) (sn_meta a) with Some (VIndex es) => Some es | _ => None end) with
                              | Some _ => true | None => false end
                          | _ => false end) (committed r (sn_meta b)) &&
